@@ -364,8 +364,8 @@ impl TemplateRegistry {
                     .template_ref
                     .as_ref()
                     .ok_or(TemplateRegistryError::InvalidDefinition)?;
-                if self.templates.contains_key(ref_name) {
-                    return Ok(());
+                if !self.templates.contains_key(ref_name) {
+                    return Err(TemplateRegistryError::UnregisteredMetric);
                 }
                 self.check_template_metrics(&template.metrics)?;
             } else {
